@@ -54,13 +54,15 @@ def slice_spec(fs, dim, a, b):
 
 @st.composite
 def redraw(draw, fs, opts, newlen=None, share=0.0, int_small=False,
-           vary_coords=False):
+           vary_coords=False, retype=None, edge=None):
     """a FileSpec with the schema of `fs` (names, dims, dtypes, masked-ness,
     attributes) and independently drawn data and masks.  newlen: {dim: len}
     overrides.  share: probability that a cell repeats the value of the
     corresponding cell of `fs` (only where shapes agree).  int_small: integer
     variables hold values 0..3 (exponents).  vary_coords: coordinate
-    variables get independent values too (default: they are repeated)."""
+    variables get independent values too (default: they are repeated).
+    retype: {variable: dtype code} stores the variable with another dtype;
+    edge: {dtype code: values} mixed into the data of retyped variables."""
     newlen = newlen or {}
     out = dict(dims=[[n, int(newlen.get(n, l)), u] for n, l, u in fs['dims']],
                vars=[], gattrs=copy.deepcopy(fs.get('gattrs', {})))
@@ -69,9 +71,10 @@ def redraw(draw, fs, opts, newlen=None, share=0.0, int_small=False,
     for v in fs['vars']:
         shape = [dlen[d] for d in v['dims']]
         size = int(np.prod(shape)) if shape else 1
-        code = v['dtype']
+        code = (retype or {}).get(v['name'], v['dtype'])
         nv = {k: copy.deepcopy(x) for k, x in v.items()
               if k not in ('data', 'mask', 'raw')}
+        nv['dtype'] = code
         same_shape = all(dlen[d] == old[d] for d in v['dims'])
         if v.get('coord') and same_shape and not vary_coords:
             nv['data'] = list(v['data'])
@@ -88,6 +91,12 @@ def redraw(draw, fs, opts, newlen=None, share=0.0, int_small=False,
                                  max_size=size))
             data = [o if k < share * 100 else n
                     for o, n, k in zip(v['data'], data, keep)]
+        if edge and v['name'] in (retype or {}) and edge.get(code):
+            pick = draw(st.lists(st.integers(0, 2), min_size=size,
+                                 max_size=size))
+            ev = draw(st.lists(st.sampled_from(edge[code]), min_size=size,
+                               max_size=size))
+            data = [e if p_ == 0 else x for x, e, p_ in zip(data, ev, pick)]
         nv['data'] = data
         if v.get('mask') is not None:
             nv['mask'] = [int(m) for m in draw(st.lists(
